@@ -10,12 +10,15 @@
 (*                 expressions may stop at the first deciding binding)                   *)
 (* Items are tagged records of ONE shape so that TLC never compares        *)
 (* incomparable values:                                                    *)
-(*   [t |-> "int"|"dec"|"flt"|"dbl"|"str"|"bool", k |-> "fin"|"nan"|"pinf"|"ninf",      *)
+(*   [t |-> "int"|"dec"|"flt"|"dbl"|"str"|"bool"|"node", k |-> "fin"|"nan"|"pinf"|"ninf", *)
 (*    q |-> <<num, den>>, s |-> <<code points>>, ap |-> BOOLEAN]           *)
 (* q is the exact value as a reduced rational; strings are sequences of    *)
 (* Unicode code points (97 = "a"); booleans carry q = 1 / 0.  ap marks a   *)
 (* result that is not exactly representable (avg of decimals = 4/3): it is *)
-(* compared approximately and never used as an operand.                    *)
+(* compared approximately and never used as an operand.  A "node" item is  *)
+(* an element of a fixed document, q = <<its document-order number, 1>>;   *)
+(* it is opaque (only the positional groups run on universes with nodes:   *)
+(* sequences are NOT re-sorted into document order by any construct here). *)
 (*                                                                         *)
 (* Every action applies ONE construct of the property to the current       *)
 (* sequence, with arguments from a boundary grid given as TOKENS           *)
@@ -40,7 +43,7 @@ EXTENDS Integers, Sequences, FiniteSets, TLC
 CONSTANTS MaxDepth,      \* TLCGet("level") bound: level N = chains of N-1 constructs
           MaxLen,        \* sequences longer than this are terminal
           InitLen,       \* initial sequences have length 0..InitLen
-          UniverseName,  \* "u2" | "u3" | "u4" | "u7" | "u9"
+          UniverseName,  \* "u2" | "u3" | "u3n" | "u4" | "u7" | "u9"
           GridName,      \* "small" | "full"
           Groups         \* subset of {"pos", "range", "iter", "agg", "cat"}
 
@@ -77,6 +80,7 @@ Special(t, k) == Item(t, k, <<0, 1>>, <<>>)
 DblNaN      == Special("dbl", "nan")
 Str(s)      == Item("str", "fin", <<0, 1>>, s)
 Bool(b)     == Item("bool", "fin", <<IF b THEN 1 ELSE 0, 1>>, <<>>)
+Node(i)     == Item("node", "fin", <<i, 1>>, <<>>)
 
 NumTypes  == {"int", "dec", "flt", "dbl"}
 IsNum(x)  == x.t \in NumTypes
@@ -466,11 +470,15 @@ ExQuant2(S, q) ==
 Sa == Str(<<97>>)
 U2 == {IntV(1), Sa}
 U3 == {IntV(1), Sa, DblNaN}
+U3n == {Node(1), Node(2), Sa}
 U4 == {IntV(1), IntV(2), Dec(5, 2), Sa}
 U7 == {IntV(1), IntV(2), IntV(3), Dec(5, 2), Dbl(1, 1), DblNaN, Sa}
 U9 == U7 \cup {Flt(3, 2), Bool(TRUE)}
-Universe == CASE UniverseName = "u2" -> U2 [] UniverseName = "u3" -> U3 [] UniverseName = "u4" -> U4
+Universe == CASE UniverseName = "u2" -> U2 [] UniverseName = "u3" -> U3 [] UniverseName = "u3n" -> U3n [] UniverseName = "u4" -> U4
               [] UniverseName = "u7" -> U7 [] UniverseName = "u9" -> U9
+
+(* atomization of nodes is not modelled: node universes only with the type-agnostic groups *)
+ASSUME UniverseName = "u3n" => Groups \subseteq {"pos", "range", "cat"}
 
 (* a state can be used as an operand: a sequence, not too long, exact, small numbers *)
 Usable == /\ st.k = "seq"
@@ -659,8 +667,9 @@ LawFilter ==
   /\ Len(ExFor2(S, <<Sb, I9>>, "($x, $y)").s) = 4 * N
   /\ ExFor2(S, <<I9>>, "$x") = OK(S)
 
+NoNodes == \A i \in 1..N : S[i].t # "node"
 (* decided on every sequence that is the SOURCE of a transition (the last level is not expanded) *)
 Laws == (Usable /\ TLCGet("level") < MaxDepth) =>
-                  /\ LawQuantDual /\ LawSubseq /\ LawReverse /\ LawInsert /\ LawRemove /\ LawHeadTail
-                  /\ LawCardinality /\ LawSum /\ LawMinMax /\ LawIndexOf /\ LawFilter
+                  /\ LawSubseq /\ LawReverse /\ LawInsert /\ LawRemove /\ LawHeadTail /\ LawCardinality /\ LawFilter
+                  /\ (NoNodes => LawQuantDual /\ LawSum /\ LawMinMax /\ LawIndexOf)   \* the laws about VALUES
 =============================================================================
